@@ -9,6 +9,7 @@ package roregexp
 
 //@ func FilterMatch$1
 //@   props C18
+//@   binds v pattern
 //@   maypanic
 //@   track call.*
 //@   ensures [calls-the-wrapped-function-once|C18] count(call.ANY) == 1 && called(call.Regexp.Match)
@@ -17,6 +18,7 @@ package roregexp
 
 //@ func FilterMatchString$1
 //@   props C18
+//@   binds v pattern
 //@   maypanic
 //@   track call.*
 //@   ensures [calls-the-wrapped-function-once|C18] count(call.ANY) == 1 && called(call.Regexp.MatchString)
@@ -25,6 +27,7 @@ package roregexp
 
 //@ func Find$1
 //@   props C18
+//@   binds v pattern
 //@   maypanic
 //@   track call.*
 //@   ensures [calls-the-wrapped-function-once|C18] count(call.ANY) == 1 && called(call.Regexp.Find)
@@ -33,6 +36,7 @@ package roregexp
 
 //@ func FindAll$1
 //@   props C18
+//@   binds v pattern n
 //@   maypanic
 //@   track call.*
 //@   ensures [calls-the-wrapped-function-once|C18] count(call.ANY) == 1 && called(call.Regexp.FindAll)
@@ -41,6 +45,7 @@ package roregexp
 
 //@ func FindAllString$1
 //@   props C18
+//@   binds v pattern n
 //@   maypanic
 //@   track call.*
 //@   ensures [calls-the-wrapped-function-once|C18] count(call.ANY) == 1 && called(call.Regexp.FindAllString)
@@ -49,6 +54,7 @@ package roregexp
 
 //@ func FindAllStringSubmatch$1
 //@   props C18
+//@   binds v pattern n
 //@   maypanic
 //@   track call.*
 //@   ensures [calls-the-wrapped-function-once|C18] count(call.ANY) == 1 && called(call.Regexp.FindAllStringSubmatch)
@@ -57,6 +63,7 @@ package roregexp
 
 //@ func FindAllSubmatch$1
 //@   props C18
+//@   binds v pattern n
 //@   maypanic
 //@   track call.*
 //@   ensures [calls-the-wrapped-function-once|C18] count(call.ANY) == 1 && called(call.Regexp.FindAllSubmatch)
@@ -65,6 +72,7 @@ package roregexp
 
 //@ func FindString$1
 //@   props C18
+//@   binds v pattern
 //@   maypanic
 //@   track call.*
 //@   ensures [calls-the-wrapped-function-once|C18] count(call.ANY) == 1 && called(call.Regexp.FindString)
@@ -73,6 +81,7 @@ package roregexp
 
 //@ func FindStringSubmatch$1
 //@   props C18
+//@   binds v pattern
 //@   maypanic
 //@   track call.*
 //@   ensures [calls-the-wrapped-function-once|C18] count(call.ANY) == 1 && called(call.Regexp.FindStringSubmatch)
@@ -81,6 +90,7 @@ package roregexp
 
 //@ func FindSubmatch$1
 //@   props C18
+//@   binds v pattern
 //@   maypanic
 //@   track call.*
 //@   ensures [calls-the-wrapped-function-once|C18] count(call.ANY) == 1 && called(call.Regexp.FindSubmatch)
@@ -89,6 +99,7 @@ package roregexp
 
 //@ func Match$1
 //@   props C18
+//@   binds v pattern
 //@   maypanic
 //@   track call.*
 //@   ensures [calls-the-wrapped-function-once|C18] count(call.ANY) == 1 && called(call.Regexp.Match)
@@ -97,6 +108,7 @@ package roregexp
 
 //@ func MatchString$1
 //@   props C18
+//@   binds v pattern
 //@   maypanic
 //@   track call.*
 //@   ensures [calls-the-wrapped-function-once|C18] count(call.ANY) == 1 && called(call.Regexp.MatchString)
@@ -105,6 +117,7 @@ package roregexp
 
 //@ func ReplaceAll$1
 //@   props C18
+//@   binds v pattern repl
 //@   maypanic
 //@   track call.*
 //@   ensures [calls-the-wrapped-function-once|C18] count(call.ANY) == 1 && called(call.Regexp.ReplaceAll)
@@ -113,6 +126,7 @@ package roregexp
 
 //@ func ReplaceAllString$1
 //@   props C18
+//@   binds v pattern repl
 //@   maypanic
 //@   track call.*
 //@   ensures [calls-the-wrapped-function-once|C18] count(call.ANY) == 1 && called(call.Regexp.ReplaceAllString)
